@@ -62,7 +62,7 @@ class C05(engine.Property):
     max_steps = 90
     uses_restart = True
     budget = {
-        "quick": {"runs": 32000, "wall_cap_s": 900},
+        "quick": {"runs": 64000, "wall_cap_s": 900},
         "thorough": {"runs": 1000000, "wall_cap_s": 5400},
     }
     rule = (
@@ -96,6 +96,10 @@ class C05(engine.Property):
         "task-abandoned",
         "short-lived-filter-callable",
         "mutator-cut-short-by-an-exception-out-of-a-user-override",
+        "membership-change-between-two-restricted-reads",
+        "half-attached-edge-completed-from-the-vertex-side",
+        "unset-end-dropped-from-an-edge",
+        "end-assignment-on-an-edge-naming-a-further-vertex",
     ]
 
     # -- configuration -------------------------------------------------------------
@@ -140,10 +144,11 @@ class C05(engine.Property):
                 "hashseed": rng.randint(0, 4294967295),
             }
         cfg["universes_as_ends"] = rng.random() < 0.3
+        cfg["p_repair"] = 0.06 if cfg["p_none"] else rng.choice([0.0, 0.04])
         if rng.random() < 0.08:
             # a vertex class with its own __setstate__ (matters across a restart)
             cfg["vertex_classes"] = ["Vertex", "MigratingVertex"]
-        elif rng.random() < 0.12:
+        elif rng.random() < 0.2:
             # vertices with value equality: equal-but-distinct ends, hash by value
             cfg["vertex_classes"] = ["EqVertex"] if rng.random() < 0.5 else ["EqVertex", "Vertex"]
         elif rng.random() < 0.15:
@@ -152,6 +157,7 @@ class C05(engine.Property):
             cfg["vertex_classes"] = ["PortVertex"] if rng.random() < 0.5 else ["PortVertex", "Vertex"]
             cfg["weights"]["add_to_link"] = max(cfg["weights"].get("add_to_link", 0), 4)
             cfg["weights"]["remove_from_link"] = max(cfg["weights"].get("remove_from_link", 0), 3)
+            cfg["p_repair"] = 0.15
         if rng.random() < 0.1:
             # an edge class whose add_vertex override raises for some vertices
             cfg["edge_classes"] = sorted(set(cfg["edge_classes"]) | {"BrittleEdge"})
@@ -199,6 +205,11 @@ class C05(engine.Property):
             return {"op": "flag", "value": True}
         if st.queue:
             return st.queue.pop(0)
+        if rng.random() < cfg.get("p_repair", 0.0):
+            ops = self._repair_pattern(rng, st)
+            if ops:
+                st.queue.extend(ops[1:])
+                return ops[0]
         # generator tasks
         if cfg["ntasks"] and rng.random() < cfg["p_task"]:
             op = self._task_op(rng, cfg, st)
@@ -210,7 +221,12 @@ class C05(engine.Property):
                 if op is not None and rng.random() < cfg["p_pattern"]:
                     target = op.get("v") or op.get("s")
                     r = rng.random()
-                    if r < 0.5:
+                    if op.get("u") in st.view.snap and rng.random() < 0.4:
+                        # universe-restricted read -> membership of that very
+                        # universe changes -> same read again
+                        mut = self._membership_change(rng, st, op["u"], target)
+                        st.stats["probe:membership-change-between-two-restricted-reads"] += 1
+                    elif r < 0.5:
                         # read -> mutate near it -> same read again
                         mut = self._mutation_near(rng, cfg, st, target)
                     elif r < 0.75:
@@ -253,6 +269,83 @@ class C05(engine.Property):
         if kind == "adj_matrix":
             return gen.g_adj_matrix(st.gen, rng, st.view, st.namer)
         return st.gen.draw(rng, st.view, st.namer, kind)
+
+    def _repair_pattern(self, rng, st):
+        """
+        Work on an edge in an unusual state, with reads around every step:
+        an edge that names a vertex which does not list it (left behind by a
+        call that a user override cut short) is attached from the vertex's
+        side; an unset end is dropped from an edge through unlink_from(None).
+        """
+        view = st.view
+        half = []
+        unset = []
+        extra = []
+        for e in view.edges():
+            ends = view.ends(e)
+            if len(ends) > 2:
+                extra.extend((e, x) for x in ends[2:] if x is not None)
+                extra.extend((e, x) for x in ends[:2] if x is not None and x in ends[2:])
+            for x in ends:
+                if x is not None and x in view.snap and e not in view.links_of(x):
+                    half.append((e, x))
+            if None in ends and len(ends) >= 2:
+                unset.append(e)
+        if extra and rng.random() < 0.5:
+            # a two-ended edge that names a vertex beyond its two ends: that
+            # vertex is promoted to an end (or an end named a third time is
+            # replaced), with reads of everyone the edge names around it
+            e, x = rng.choice(extra)
+            st.stats["probe:end-assignment-on-an-edge-naming-a-further-vertex"] += 1
+            named = list(dict.fromkeys(y for y in view.ends(e) if y is not None))
+            reads = [{"op": "neighbors", "v": y, "unk": "nb", "dir": rng.choice(["fwd", "any"])} for y in named]
+            which = rng.choice([1, 2])
+            target = x if rng.random() < 0.6 else st.gen.pick_vertex(rng, view, allow_none=False)
+            return reads + [{"op": "set_end", "e": e, "which": which, "x": target}] + [dict(r) for r in reads]
+        if half and (not unset or rng.random() < 0.6):
+            e, p = rng.choice(half)
+            st.stats["probe:half-attached-edge-completed-from-the-vertex-side"] += 1
+            ops = [{"op": "neighbors", "v": p, "unk": "nb", "dir": "any"}]
+            mine = [l for l in view.links_of(p) if view.snap.get(l, {}).get("k") == "e"]
+            if mine:
+                ops.append({"op": "remove_from_link", "v": p, "e": rng.choice(mine)})
+                ops.append({"op": "neighbors", "v": p, "unk": "nb", "dir": "any"})
+            ops.append({"op": "add_to_link", "v": p, "e": e})
+            ops.append({"op": "neighbors", "v": p, "unk": "nb", "dir": "any"})
+            return ops
+        if unset:
+            e = rng.choice(unset)
+            named = [x for x in view.ends(e) if x is not None]
+            st.stats["probe:unset-end-dropped-from-an-edge"] += 1
+            reads = [{"op": "neighbors", "v": x, "unk": "nb", "dir": rng.choice(["fwd", "any"])} for x in dict.fromkeys(named)]
+            ops = list(reads)
+            if len(view.ends(e)) == 2 and rng.random() < 0.6:
+                w = st.gen.pick_vertex(rng, view, allow_none=False)
+                if w is not None:
+                    ops.append({"op": "add_vertex", "e": e, "v": w})
+                    reads.append({"op": "neighbors", "v": w, "unk": "nb", "dir": "any"})
+                    ops.extend(dict(r) for r in reads)
+            ops.append({"op": "unlink_from", "e": e, "v": None})
+            ops.extend(dict(r) for r in reads)
+            return ops
+        return None
+
+    def _membership_change(self, rng, st, u, near):
+        view = st.view
+        members = [m for m in view.snap[u].get("members", []) if m in view.snap]
+        outsiders = [x for x in view.vertices() if x not in members]
+        # prefer vertices the read will have visited: the start and its neighbourhood
+        hood = [near] if near in view.snap else []
+        for l in view.links_of(near) if near in view.snap else []:
+            hood.extend(x for x in view.ends(l) if x is not None)
+        if members and (not outsiders or rng.random() < 0.5):
+            cand = [m for m in members if m in hood] or members
+            v = rng.choice(cand)
+            return {"op": rng.choice(["uni_remove", "v_remove_uni"]), "u": u, "v": v}
+        if outsiders:
+            cand = [x for x in outsiders if x in hood] or outsiders
+            return {"op": rng.choice(["uni_add", "v_add_uni"]), "u": u, "v": rng.choice(cand)}
+        return None
 
     def _mutation_near(self, rng, cfg, st, v):
         """A mutation that changes v's neighbourhood, entered through any party."""
